@@ -208,6 +208,8 @@ func namedStruct(p *Prog, pkg, name string) (*types.Struct, string) {
 func runC18(c *Ctx) {
 	p := c.P
 	redirectKeepsRequest(c, "R7")
+	offeredAuthorizationKept(c, "R4")
+	lockQueryEncoded(c, "R1")
 	// ---- R2 first: which Transfer fields are set on request objects --------------------------
 	setFields := map[string]bool{}
 	tt := p.Fn("tq", "(batch).ToTransfers")
